@@ -13,7 +13,7 @@ From Coq Require Import Sorting.Sorted.
    at each of them the entry for status s is the number of listed nodes whose
    node_status at that time is s *)
 Theorem C10_summary_spec :
-  forall iv ps tmin l, iv_ps iv = Some ps -> l <> [] ->
+  forall iv ps tmin l, possible_statuses iv = ps -> l <> [] ->
   (forall u, In u l -> exists h, hist_of iv u = Ok h /\ wf_histb ps tmin h = true) ->
   exists rows, summary iv (Some l) = Ok rows /\ rows <> [] /\ StronglySorted Qlt (map fst rows) /\
     (forall t cs, In (t, cs) rows -> tmin <= t /\ cs = map (count_at iv l t) ps) /\
@@ -21,13 +21,30 @@ Theorem C10_summary_spec :
     (forall u h x, In u l -> hist_of iv u = Ok h -> In x h -> exists t, In t (map fst rows) /\ t == fst x).
 Proof. exact summary_spec. Qed.
 
+(* each entry of a row belongs to one status (the one at the same position of the
+   possible statuses): nothing depends on the order in which the statuses are listed *)
+Theorem C10_summary_entry_per_status :
+  forall iv ps tmin l rows, possible_statuses iv = ps -> l <> [] ->
+  (forall u, In u l -> exists h, hist_of iv u = Ok h /\ wf_histb ps tmin h = true) ->
+  summary iv (Some l) = Ok rows ->
+  forall t cs i s, In (t, cs) rows -> nth_error ps i = Some s -> nth_error cs i = Some (count_at iv l t s).
+Proof. exact summary_entry. Qed.
+
+(* possible_statuses not given: every status occurring in a recorded history, once
+   (the code's list(set(..)) order is unspecified and not part of the statement) *)
+Theorem C10_default_possible_statuses :
+  forall iv, iv_ps iv = None ->
+  NoDup (possible_statuses iv) /\
+  forall s, In s (possible_statuses iv) <-> exists u h e, In (u, h) (iv_hist iv) /\ In e h /\ snd e = s.
+Proof. exact possible_statuses_default. Qed.
+
 Theorem C10_summary_default_is_all_nodes :
   forall iv, summary iv None = summary iv (Some (iv_nodes iv)).
 Proof. exact summary_all. Qed.
 
 (* t(), S(), I(), R() are the columns of summary(); a status that is not possible is EoNError *)
 Theorem C10_tSIR_are_columns_of_summary :
-  forall iv ps rows s, iv_ps iv = Some ps -> summary iv None = Ok rows ->
+  forall iv ps rows s, possible_statuses iv = ps -> summary iv None = Ok rows ->
   iv_t iv = Ok (map fst rows) /\
   (forall i, index_of s ps = Some i -> column iv s = Ok (map (fun r => nth i (snd r) 0%Z) rows)) /\
   (index_of s ps = None -> column iv s = Err EoNError).
@@ -66,8 +83,8 @@ Proof. exact log_lemma. Qed.
    moves) and summary(histories) = the arrays as step functions of time *)
 Theorem C10_checker_sound :
   forall iv arrays tmin mv, consistent_b iv arrays tmin mv = true ->
-  exists ps rows, possible_statuses iv = Ok ps /\
-    (forall u, In u (iv_nodes iv) -> exists h, hist_of iv u = Ok h /\ good_histb ps mv tmin h = true) /\
+  exists rows,
+    (forall u, In u (iv_nodes iv) -> exists h, hist_of iv u = Ok h /\ good_histb (possible_statuses iv) mv tmin h = true) /\
     summary iv None = Ok rows /\ same_series rows arrays = true.
 Proof. exact consistent_sound. Qed.
 
@@ -75,7 +92,7 @@ Proof. exact consistent_sound. Qed.
    summary, and at each of these times the returned time series, read as a step
    function, gives for each possible status the number of nodes whose node_status is it *)
 Theorem C10_checker_acceptance_means :
-  forall iv arrays tmin mv ps, iv_ps iv = Some ps -> consistent_b iv arrays tmin mv = true ->
+  forall iv arrays tmin mv ps, possible_statuses iv = ps -> consistent_b iv arrays tmin mv = true ->
   (forall u, In u (iv_nodes iv) -> exists h, hist_of iv u = Ok h /\ good_histb ps mv tmin h = true) /\
   exists rows, summary iv None = Ok rows /\
     (forall u h x, In u (iv_nodes iv) -> hist_of iv u = Ok h -> In x h -> exists t, In t (map fst rows) /\ t == fst x) /\
@@ -119,6 +136,38 @@ Theorem C10_transform_SIS_histories_legal :
   good_histb [stS; stI] sis_moves tmin h = true.
 Proof. exact transform_SIS_good. Qed.
 
+(* the objects the simulators construct (transform of the infection / recovery tables,
+   default history ([tmin],['S'])) ARE the object of a log: when the tables relate to the
+   initial statuses and the events of each node as the simulators fill them
+   ([sir_tables_ok] / [sis_tables_ok]; initially infected or recovered nodes carry the
+   time tmin) and the log has strictly increasing times after tmin ([log_okb]), every
+   node has the history that is the projection of the log, so C10_log_lemma applies
+   verbatim: summary = the running counts of the log *)
+Theorem C10_investigation_SIR_is_log_object :
+  forall nodes tmin init log inf rec,
+  log_okb nodes [stS; stI; stR] tmin init log = true ->
+  NoDup (map fst inf) -> NoDup (map fst rec) ->
+  (forall u, In u nodes -> sir_tables_ok tmin (init u) (events_of_node log u) (assoc inf u) (assoc rec u)) ->
+  (forall u, In u nodes -> hist_of (investigation_SIR nodes tmin inf rec) u = Ok (project tmin init log u)) /\
+  summary (investigation_SIR nodes tmin inf rec) None = Ok (log_arrays nodes [stS; stI; stR] tmin init log).
+Proof. exact investigation_SIR_summary. Qed.
+
+Theorem C10_investigation_SIS_is_log_object :
+  forall nodes tmin init log inf rec,
+  log_okb nodes [stS; stI] tmin init log = true -> NoDup (map fst inf) ->
+  (forall u, In u nodes -> sis_tables_ok tmin (init u) (events_of_node log u) (assoc inf u) (rts_of rec u)) ->
+  (forall u, In u nodes -> hist_of (investigation_SIS nodes tmin inf rec) u = Ok (project tmin init log u)) /\
+  summary (investigation_SIS nodes tmin inf rec) None = Ok (log_arrays nodes [stS; stI] tmin init log).
+Proof. exact investigation_SIS_summary. Qed.
+
+(* objects that agree on the node list, the possible statuses and every node's history
+   have the same summary *)
+Theorem C10_summary_depends_on_histories_only :
+  forall iv iv', iv_nodes iv = iv_nodes iv' -> possible_statuses iv = possible_statuses iv' ->
+  (forall u, In u (iv_nodes iv) -> hist_of iv u = hist_of iv' u) ->
+  summary iv None = summary iv' None.
+Proof. exact summary_ext. Qed.
+
 (* ---------------- non-vacuity ---------------- *)
 (* three nodes, SIR: 0 is infected at 1/2 and recovers at 2; 1 starts infected and
    recovers at 1/2 (a shared time); 2 never changes *)
@@ -139,6 +188,31 @@ Example C10_ex_summary :
   consistent_b ex_iv [(0, [2; 1; 0]%Z); (1 # 2, [2; 1; 0]%Z)] 0 [(stS, stI); (stI, stR)] = false.
 Proof. vm_compute. repeat split. Qed.
 
+(* the tables a simulator would hand over for ex_log: node 1 initially infected *)
+Definition ex_inf : list (node * Q) := [(1%N, 0); (0%N, 3 # 4)].
+Definition ex_rec : list (node * Q) := [(1%N, 1 # 2); (0%N, 2 # 1)].
+Example C10_ex_tables :
+  (forall u, In u [0; 1; 2]%N -> sir_tables_ok 0 (ex_init u) (events_of_node ex_log u) (assoc ex_inf u) (assoc ex_rec u)) /\
+  summary (investigation_SIR [0; 1; 2]%N 0 ex_inf ex_rec) None = Ok (log_arrays [0; 1; 2]%N [stS; stI; stR] 0 ex_init ex_log) /\
+  sis_tables_ok 0 stI [(1, stS); (2 # 1, stI)] (Some [0; 2 # 1]) [1].
+Proof.
+  split; [|split].
+  - intros u [Hu|[Hu|[Hu|[]]]]; subst u.
+    + right. right. left. split; [reflexivity|]. exists (3 # 4), (2 # 1). repeat split.
+    + right. right. right. right. left. split; [reflexivity|]. exists (1 # 2). repeat split.
+    + left. repeat split.
+  - vm_compute. reflexivity.
+  - right. right. split; [reflexivity|]. exists [2 # 1]. split; reflexivity.
+Qed.
+
+(* possible_statuses not given: R, then S, then I appear first in this order *)
+Example C10_ex_default_statuses :
+  let iv := mkInv [0; 1]%N [(0%N, [(0, stR)]); (1%N, [(0, stS); (1, stI); (2 # 1, stR)])] None None in
+  possible_statuses iv = [stR; stS; stI] /\
+  summary iv None = Ok [(0, [1; 1; 0]%Z); (1, [1; 0; 1]%Z); (2 # 1, [2; 0; 0]%Z)] /\
+  iv_S iv = Ok [1; 0; 0]%Z /\ iv_R iv = Ok [1; 1; 2]%Z.
+Proof. vm_compute. repeat split. Qed.
+
 (* node 0 initially infected (time tmin: the default entry is dropped), recovers at 1;
    node 1 infected at 1/2, still infected; a zero-length infection at tmin keeps only R *)
 Example C10_ex_transform :
@@ -150,7 +224,10 @@ Example C10_ex_transform :
 Proof. vm_compute. repeat split. Qed.
 
 Print Assumptions C10_summary_spec.
+Print Assumptions C10_summary_entry_per_status.
+Print Assumptions C10_default_possible_statuses.
 Print Assumptions C10_summary_default_is_all_nodes.
+Print Assumptions C10_ex_default_statuses.
 Print Assumptions C10_tSIR_are_columns_of_summary.
 Print Assumptions C10_index_of_is_position.
 Print Assumptions C10_node_status_spec.
@@ -162,6 +239,10 @@ Print Assumptions C10_transform_SIR_spec.
 Print Assumptions C10_transform_SIR_histories_legal.
 Print Assumptions C10_transform_SIS_spec.
 Print Assumptions C10_transform_SIS_histories_legal.
+Print Assumptions C10_investigation_SIR_is_log_object.
+Print Assumptions C10_investigation_SIS_is_log_object.
+Print Assumptions C10_summary_depends_on_histories_only.
+Print Assumptions C10_ex_tables.
 Print Assumptions C10_ex_transform.
 Print Assumptions C10_ex_hypotheses.
 Print Assumptions C10_ex_summary.
